@@ -228,13 +228,14 @@ func (s *encoder) Run(ctx context.Context) {
 		return
 	}
 
-	if ceil(len(encodedData), perMsgLength) > maxLongSmsParts {
+	data := splitWithUDHI(encodedData, perMsgLength, s.frameKey, encoder.Name())
+	if len(data) > maxLongSmsParts {
 		s.canEncode = false
 		s.reason = fmt.Sprintf("%s encode error: %v", s.Name(), ErrTooManyParts)
 		return
 	}
 
-	s.data = splitWithUDHI(encodedData, perMsgLength, s.frameKey)
+	s.data = data
 }
 
 func (s *encoder) Result() (contents [][]byte, actualMsgFmt datacoding.ProtocolDataCoding, err error) {
